@@ -169,6 +169,7 @@ func (t *Trie) Put(key, value []byte) error {
 func (t *Trie) putIntoLeaf(curr *LeafNode, path []byte, val Node) (Node, error) {
 	v := val.(*LeafNode)
 	if len(path) == 0 {
+		t.removeRef(curr.Hash(), curr.bytes)
 		t.addRef(val.Hash(), val.Bytes())
 		return v, nil
 	}
